@@ -461,7 +461,7 @@ func genC14(tier string, r *Rng, emit func(Case)) {
 				t.ints(nil)
 				t.i(1)
 				t.i(-1)
-				t.i(-1)
+				t.i(17 - fn%2) // a bounded view: a finite sequence type also for the generator-backed Number
 				t.ints(pat)
 				t.i(fn)
 				t.i([]int{1, 2, -1}[(fn+len(pat))%3])
